@@ -200,6 +200,7 @@ def specStep (sh : Shadow) (o : Proto.Op) : Except String Shadow := do
   | ["plugin", "post"] =>
     pure { sh with period := .enabled,
                    live := sh.live.map (fun b => if b.period == .checking then { b with period := .enabled } else b) }
+  | ["plugin", "final", _] => pure sh
   | ["plugin", "ignore"] => pure sh
   | ["plugin", "expect", _] => pure sh
   | ["mrp", "create"] => pure { sh with mrpBase := sh.fams.length }
